@@ -140,7 +140,7 @@ static int sim_stat(const char *path, struct stat *st) {
     auto it = G.w.files.find(p);
     if (it == G.w.files.end()) { e.ret = -1; e.err = ENOENT; errno = ENOENT; return -1; }
     const FileNode &n = it->second;
-    st->st_mode = (n.kind == 1 ? S_IFDIR | 0755 : n.kind >= 2 ? S_IFCHR | 0666 : S_IFREG | 0644);
+    st->st_mode = (n.kind == 1 ? S_IFDIR | 0755 : n.kind >= 2 ? S_IFCHR | 0666 : S_IFREG | (mode_t)(n.mode & 07777));
     st->st_uid = n.uid; st->st_size = (off_t)n.content.size(); st->st_nlink = 1; st->st_blksize = 4096;
     return 0;
 }
@@ -171,7 +171,7 @@ int fstat(int fd, struct stat *st) {
     if (it->second.kind >= 2) { st->st_mode = G.w.stdout_kind == 0 ? (S_IFCHR | 0620) : G.w.stdout_kind == 1 ? (S_IFIFO | 0600) : (S_IFREG | 0644); st->st_blksize = 4096; return 0; }
     auto nt = G.w.files.find(it->second.path);
     st->st_mode = S_IFREG | 0644; st->st_blksize = 4096;
-    if (nt != G.w.files.end()) { st->st_size = (off_t)nt->second.content.size(); st->st_uid = nt->second.uid; if (nt->second.kind >= 2) st->st_mode = S_IFCHR | 0666; }
+    if (nt != G.w.files.end()) { st->st_size = (off_t)nt->second.content.size(); st->st_uid = nt->second.uid; st->st_mode = S_IFREG | (mode_t)(nt->second.mode & 07777); if (nt->second.kind >= 2) st->st_mode = S_IFCHR | 0666; }
     return 0;
 }
 int isatty(int fd) {
